@@ -22,23 +22,23 @@ TABLE = {
             "Proved for every arithmetic (hence IEEE doubles) and all sizes: the five-step recursion stores at each wedge coordinate a value that depends on the coordinate and beta only (HKernel.runH_refines/pure/size_indep); over checked reals the recursion never divides by zero nor takes the root of a negative number for any size, and never reads the inf/nan table entries (Finite.runH_checked_eq_real, tables_read_defined); every flat index expression of _step_2.._step_5 denotes the cell/table entry the model uses, in range (FlatSteps.*); d/D assembly formula; eps = generated eps; over exact reals the model EQUALS the documented polynomial for ell <= 1 and every unit quaternion (both degenerate Euler branches included: DDef.D_ell1, d_ell1 — pins every sign/phase/index convention), for ell = 2 (DDef2) and on both pole families for EVERY ell (DDef.D_zrot, D_pi, D_identity, H_poles); and, unconditionally, for EVERY ell, every unit quaternion and every entry: the documented d satisfies the Gumerov-Duraiswami relations (0),(41),(50) and both symmetries (DocD.isGDFamily_doc, via its generating polynomial), those relations have a unique solution, which is what the model stores (GDFamily.*), hence model of Wigner.d = documented d (DocD.objd_eq_docd) and model of Wigner.D = documented D including both degenerate Euler branches (DAll.D_all). What is NOT proved is the floating-point error bound (oracle-sampled)." + PARTIAL_ROUNDING,
             NOTE_COMMON + "quaternionic.ToEulerPhases modelled from its source; np.sqrt(complex) a parameter. Known finding F10 (subnormal near-pole band) is reported as KNOWN-FINDING.", "DESIGN.md §7 C01"),
     "C02": ("Lean theorems (exact zeros for every arithmetic, sYlm = D column in exact arithmetic, narrow-wedge safety) + bitwise correspondence + oracle to ell=1024",
-            "Proved: entries below |s| are literal zeros for every scalar type; every H lookup of spin s lies in |m'|<=|s| (so an mp_max-limited calculator is safe for every ell_max); in exact arithmetic sYlm = (-1)^s sqrt((2l+1)/4pi) D^l_{m,-s} of the same model (Routes.sYlm_eq_D_column) and of the DOCUMENTED D for every ell and unit quaternion (DAll.sYlm_all); H refinement as C01. fill_sYlm agrees bitwise incl. |s|>=3, limited calculators, ell_min>0." + PARTIAL_ROUNDING,
+            "Proved: entries below |s| are literal zeros for every scalar type; every H lookup of spin s lies in |m'|<=|s| (so an mp_max-limited calculator is safe for every ell_max); in exact arithmetic sYlm = (-1)^s sqrt((2l+1)/4pi) D^l_{m,-s} of the same model (Routes.sYlm_eq_D_column) and of the DOCUMENTED D for every ell and unit quaternion (DAll.sYlm_all); the addition theorem sum_m |sYlm|^2 = (2l+1)/4pi is proved for the model for every ell, spin and rotor (HomAll.addition_theorem); H refinement as C01. fill_sYlm agrees bitwise incl. |s|>=3, limited calculators, ell_min>0." + PARTIAL_ROUNDING,
             NOTE_COMMON + "z**|s| (numpy complex power) is a parameter of the model. Known finding F10 as in C01.", "DESIGN.md §7 C02"),
     "C03": ("Lean proof that the Horner route equals the plain double sum f_lm*sYlm (exact arithmetic, all sizes/spins) + bitwise correspondence of _evaluate_Horner + sweep of every route",
-            "Proved for all ell_max, all spins: evaluateHorner = sum_{l,m} f_lm * sYlmEntry over exact reals (Routes.evaluate_eq_sum_sYlm), output cell initialised by the kernel (evaluateHornerK); the incremental flat index walking of _evaluate_Horner (both 0<m<|s| jump loops, any number of iterations, any mp_max>=|s|) lands on WignerHindex(ell, ±m, -s) of the generated index functions, i.e. on the cell the model reads, in range (IndexWalk.evalH_walk_*). _evaluate_Horner agrees bit for bit with the model. Matrix route, larger calculators, Modes.evaluate, Modes.grid (spinsfast on/off), shapes and input immutability are checked by the sweep." + PARTIAL,
+            "Proved for all ell_max, all spins: evaluateHorner = sum_{l,m} f_lm * sYlmEntry over exact reals (Routes.evaluate_eq_sum_sYlm), output cell initialised by the kernel (evaluateHornerK); the incremental flat index walking of _evaluate_Horner (both 0<m<|s| jump loops, any number of iterations, any mp_max>=|s|) lands on WignerHindex(ell, ±m, -s) of the generated index functions, i.e. on the cell the model reads, in range (IndexWalk.evalH_walk_*). _evaluate_Horner agrees bit for bit with the model. and the sYlm it sums are the documented ones (DAll.sYlm_all), so in exact arithmetic Wigner.evaluate = sum f_lm sYlm(documented) for every ell_max, spin and rotor (HomAll.evaluate_is_evalW). Matrix route = Horner route (Matrix). Larger calculators, Modes.evaluate, Modes.grid (spinsfast on/off), shapes, layouts and input immutability are checked by the sweep." + PARTIAL_ROUNDING,
             NOTE_COMMON + "BLAS matmul and spinsfast are external (numerical comparison only); conj(z)**s is a parameter.", "DESIGN.md §7 C03"),
     "C04": ("Lean proof that the Horner rotation equals sum_m' f_lm' D_m'm (exact arithmetic) + bitwise correspondence of _rotate_Horner + sweep",
-            "Proved: rotateHornerEntry = sum_n f_ln * DEntry(l,n,m) over exact reals for all l (Routes.rotateHorner_eq_matrix); the flat index walking of _rotate_Horner lands on WignerHindex(ell, ±n, m) for all sizes (IndexWalk.rotH_walk_*). _rotate_Horner agrees bit for bit with the model. f'(Q)=f(RQ), composition, inverse, block norms, metadata, strategies, Modes.rotate are checked by the sweep." + PARTIAL,
-            NOTE_COMMON + "the representation property of D is not proved; matrix route uses BLAS.", "DESIGN.md §7 C04"),
+            "Proved: rotateHornerEntry = sum_n f_ln * DEntry(l,n,m) over exact reals for all l (Routes.rotateHorner_eq_matrix); the flat index walking of _rotate_Horner lands on WignerHindex(ell, ±n, m) for all sizes (IndexWalk.rotH_walk_*). _rotate_Horner agrees bit for bit with the model. With the documented D (DAll) and its group laws (DocHom): rotate computes f.D(documented) (HomAll.rotate_is_rot), f'(Q) = f(R Q) (rot_evaluate / rotate_evaluate), rotations compose (P then Q = P Q), the inverse undoes, R and -R agree, every ell block keeps its norm — all for every ell in exact arithmetic. Metadata, strategies, Modes.rotate, layouts are checked by the sweep." + PARTIAL_ROUNDING,
+            NOTE_COMMON + "matrix route uses BLAS (numerical comparison only).", "DESIGN.md §7 C04"),
     "C05": ("generated integer coefficients (translator) + Lean model of calculate bitwise-validated + Racah oracle",
-            "The integer coefficient B and the radicand of A are re-translated from the source every run together with the declared return width; proved about the generated definitions: no fixed-width overflow of B for j2,j3 <= 20000 (C05.B_exact; a narrower declared width breaks the proof and the witness B_int32_would_overflow), radicand of A exact and non-negative on every call calculate makes with j2+j3 <= 1989 (sharp). The model of Wigner3jCalculator.calculate / Wigner3j / clebsch_gordan (which calls the generated B) reproduces the jitted code bit for bit on exhaustive small J and branch-targeted samples to j=400; proved for every arithmetic: selection-rule zeros are literal zeros, calculate does not depend on the previous workspace content, the front end hands the calculator the cyclic permutation with the largest j first and reads an in-range entry; memory safety of calculate (W3jBounds). Over exact reals (W3jNorm): the output is normalised (sum (2j+1) f(j)^2 = 1), obeys the sign convention sign f(jmax) = (-1)^(j2-j3+m2+m3), equals the closed form (-1)^(j2-j3+m2+m3)/sqrt(2j+1) whenever the range is a single cell (e.g. (j j 0; m -m 0) for every j), satisfies the three-term recurrence with the model's X,Y,Z at every cell but the one matching point, and is zero outside [jmin,jmax] (the last two under the explicit hypothesis Regular, proved for m2=m3=0, for <=3 cells and when B>=0 at either end)." + PARTIAL,
+            "The integer coefficient B and the radicand of A are re-translated from the source every run together with the declared return width; proved about the generated definitions: no fixed-width overflow of B for j2,j3 <= 20000 (C05.B_exact; a narrower declared width breaks the proof and the witness B_int32_would_overflow), radicand of A exact and non-negative on every call calculate makes with j2+j3 <= 1989 (sharp). The model of Wigner3jCalculator.calculate / Wigner3j / clebsch_gordan (which calls the generated B) reproduces the jitted code bit for bit on exhaustive small J and branch-targeted samples to j=400; proved for every arithmetic: selection-rule zeros are literal zeros, calculate does not depend on the previous workspace content, the front end hands the calculator the cyclic permutation with the largest j first and reads an in-range entry; memory safety of calculate (W3jBounds). Over exact reals (W3jNorm): the output is normalised (sum (2j+1) f(j)^2 = 1), obeys the sign convention sign f(jmax) = (-1)^(j2-j3+m2+m3), equals the closed form (-1)^(j2-j3+m2+m3)/sqrt(2j+1) whenever the range is a single cell (e.g. (j j 0; m -m 0) for every j), satisfies the three-term recurrence with the model's X,Y,Z at every cell but the one matching point, and is zero outside [jmin,jmax] (the last two under the explicit hypothesis Regular, proved for m2=m3=0, for <=3 cells and when B>=0 at either end). Conditional identification (W3jUniq): any family satisfying the Schulten-Gordon recurrence (closed-form X,Y,Z proved equal to the model's), the normalisation and the sign convention is unique and is what the model returns on Regular admissible runs (no non-vanishing side conditions); that Racah's symbols satisfy the recurrence is classical and NOT proved here." + PARTIAL,
             NOTE_COMMON + "identification with the Racah formula and the 1e-9/1e-12 bounds are oracle-checked only.", "DESIGN.md §7 C05"),
     "C06": ("Lean theorems on product metadata/truncation rules + sweep vs evaluation on rotors",
             "Lean model of Modes.__array_ufunc__/multiply/helper loop nest validated op by op against the real class (~4200 generated operations per run incl. the helper's own read/write sequence); proved for all spins/sizes: spin adds, ell_max rule with truncators, all spellings agree, the truncated product is the full product cut (same terms in the same order: bit for bit), every helper index in range (via C11), out=/in-place overwrite and reject a wrong shape. Sweep: every spelling against evaluation at rotors, truncators, function form with differing ell_min, out=/in-place, scalars." + PARTIAL,
             NOTE_COMMON + "the Clebsch-Gordan series is not proved.", "DESIGN.md §7 C06"),
     "C07": ("Lean proof of the conjugation symmetry of the D assembly (exact arithmetic, all l) + full-block sweep of the group laws",
-            "Proved: D_{-m',-m} = (-1)^{m'+m} conj D_{m',m} for the model's assembly from the quarter wedge (Routes.D_conj_symm), H fold symmetric (C11.hindex_symm). D(1) = identity is proved for every ell (DDef.D_identity) as are the closed forms on both pole families. Group laws proved for ell<=2 and the rotation-matrix identity at ell=1 (DHom). Homomorphism, unitarity, D(-R) on every entry of every block to ell=128 are swept (quick: all blocks to 48 on the full rotor set + sampled blocks to 128 on four rotors)." + PARTIAL,
-            NOTE_COMMON + "homomorphism/unitarity need the identification with the documented polynomial.", "DESIGN.md §7 C07"),
+            "Proved: D_{-m',-m} = (-1)^{m'+m} conj D_{m',m} for the model's assembly from the quarter wedge (Routes.D_conj_symm), H fold symmetric (C11.hindex_symm). D(1) = identity is proved for every ell (DDef.D_identity) as are the closed forms on both pole families. Homomorphism, unitarity (rows and columns), D(R^-1) = D(R)^dagger, D(-R) = D(R), D(1) = 1 and the conjugation symmetry are proved for the model for EVERY ell in exact arithmetic (HomAll.D_*_all = DAll.D_all + the group laws of the documented D, DocHom.*); rotation-matrix identity at ell=1 (DHom). Homomorphism, unitarity, D(-R) on every entry of every block to ell=128 are swept (quick: all blocks to 48 on the full rotor set + sampled blocks to 128 on four rotors)." + PARTIAL_ROUNDING,
+            NOTE_COMMON + "the (ell+1) eps bounds are swept, not proved.", "DESIGN.md §7 C07"),
     "C08": ("Lean theorem runH_size_indep (value at a coordinate independent of ell_max, mp_max, workspace; any arithmetic => bit for bit) + cross-configuration bitwise sweep",
             "Proved for every arithmetic: two calculators of different (ell_max, mp_max) and different workspaces hold the same value at every common wedge coordinate; index functions place it (C11). Assembly kernels are pure maps of H. Sweep compares differently sized calculators, wrappers, oversized workspaces and 3-j capacities bit for bit.",
             NOTE_COMMON + "ell_min offsets are the generated index functions (C11).", "DESIGN.md §7 C09/C08/C17"),
@@ -55,7 +55,7 @@ TABLE = {
             "Proved over exact reals for every spin, ell, m and every weight family (Model/Operators, validated bit for bit against Modes operators and the array-level functions on ~22000 cases per run): su(2) commutators and Casimir for L and R, [ethbar,eth] = 2s incl. ell=|s|, eth/ethbar coefficients sqrt((l-s)(l+s+1)) / -sqrt((l+s)(l-s+1)), annihilation below the new |s|, NP = sqrt2 GHP, array-level = Modes-level for every ell_min, ethbar_inverse two-sided inverse on its domain. Sweep: exponential series of the generators vs evaluation at exp(tg)Q / Q exp(tg)." + PARTIAL,
             NOTE_COMMON + "generator semantics needs the representation property (not proved).", "DESIGN.md §7 C12"),
     "C13": ("Lean proof of conjugation symmetry (Routes) + sweep of Modes algebra vs evaluation",
-            "Proved (exact arithmetic): the symmetry D_{-m',-m} = (-1)^{m'+m} conj D_{m',m} and sYlm = D column, which give conj(f)(Q) = conj(f(Q)) for the conjugation rule; on the validated Modes model, for all spins/sizes: add/subtract spin rule and ell_max = max, rejections (spin mismatch, non-zero scalar, division by Modes, allow-list), conjugation pairing (ell,m)<->(ell,-m) with sign (-1)^{s+m}, method = ufunc = in-place loop, involution, out= overwrites (also when out aliases an operand). Sweep covers +,-, conjugation by every spelling incl. aliasing out=, real/imag, norm." + PARTIAL,
+            "Proved (exact arithmetic): the symmetry D_{-m',-m} = (-1)^{m'+m} conj D_{m',m} and sYlm = D column, which give conj(f)(Q) = conj(f(Q)) for the conjugation rule; at FUNCTION level, tied to the model's loops and to the documented sYlm (FuncAlg): (f+-g)(Q) = f(Q)+-g(Q) for any pair of ell_max (out=/aliasing included), scalars scale pointwise, conj-weights evaluate to the complex conjugate, conjugation is an involution, real/imag evaluate to Re/Im f(Q) for spin 0 (weight formula compared with the class bit for bit every run); on the validated Modes model, for all spins/sizes: add/subtract spin rule and ell_max = max, rejections (spin mismatch, non-zero scalar, division by Modes, allow-list), conjugation pairing (ell,m)<->(ell,-m) with sign (-1)^{s+m}, method = ufunc = in-place loop, involution, out= overwrites (also when out aliases an operand). Sweep covers +,-, conjugation by every spelling incl. aliasing out=, real/imag, norm." + PARTIAL,
             NOTE_COMMON + "norm = L2 norm relies on orthonormality (not proved).", "DESIGN.md §7 C13"),
     "C14": ("Lean proof that complex_powers returns z^m exactly over the reals (all M, all quadrants) + bitwise correspondence + mpmath oracle",
             "Proved over exact reals for every unit z, every M, every m<=M: entry m = z^m (C14.cpow_exact); the quadrant loop ends within 3 turns for every real z (fuel never exhausted); entry 0 is literally 1 for every arithmetic, entry 1 is z. _complex_powers agrees with the model bit for bit on all quadrants/axes/signed zeros." + PARTIAL,
